@@ -234,18 +234,44 @@ def tauSucc (v : Variant) (c : Ctx) (s : St) : List St :=
     if heldAtHook v c.parked s i then none else step v s (.cons i)
   r ++ cs
 
-/-- τ-closure by work-list with fuel. -/
-def closure (v : Variant) (c : Ctx) : Nat → List St → List St → List St
-  | 0, acc, _ => acc
-  | _, acc, [] => acc
-  | n + 1, acc, s :: todo =>
-    let new := (tauSucc v c s).filter fun t => !(acc.contains t)
+/-! τ-closure by work-list with fuel.  `seen` = the states found so far, in 64 buckets by a cheap
+fingerprint: it only makes the membership test fast; which states are skipped as "already seen" has no
+bearing on soundness (every state added is a τ-successor of a state of the set). -/
+
+def RunPc.code : RunPc → Nat
+  | .idle => 0 | .called => 1 | .wantLock => 2 | .pendLock => 3 | .fetch => 4 | .setSvid _ => 5 | .closeOk => 6
+  | .closeErr => 7 | .unlockOk => 8 | .unlockErr => 9 | .retErr => 10 | .rotRLock => 11 | .rotRUnlock => 12
+  | .rotWait => 13 | .rotFetch => 14 | .rotWantLock _ => 15 | .rotPendLock _ => 16 | .rotSet _ => 17
+  | .rotUnlock => 18 | .stopped => 19
+
+def ConsPc.code : ConsPc → Nat
+  | .yWait => 1 | .yDone _ => 2 | .gCall => 3 | .gHoldWait => 4 | .gPassed => 5 | .gHold => 6
+  | .gUnlock _ => 7 | .gDone _ => 8
+
+def fingerprint (s : St) : Nat :=
+  s.cons.foldl (fun h c => (h * 9 + c.code) % 4093) (s.run.code + 23 * s.readers)
+
+abbrev Seen := List (List St)
+
+def Seen.empty : Seen := List.replicate 64 []
+
+def Seen.contains (seen : Seen) (t : St) : Bool := (seen.getD (fingerprint t % 64) []).contains t
+
+def Seen.insert (seen : Seen) (t : St) : Seen :=
+  let k := fingerprint t % 64
+  seen.set k (t :: seen.getD k [])
+
+def closure (v : Variant) (c : Ctx) : Nat → Seen → List St → List St → List St
+  | 0, _, acc, _ => acc
+  | _, _, acc, [] => acc
+  | n + 1, seen, acc, s :: todo =>
+    let new := (tauSucc v c s).filter fun t => !(seen.contains t)
     let new := new.foldl insertNew []
-    closure v c n (acc ++ new) (todo ++ new)
+    closure v c n (new.foldl Seen.insert seen) (new ++ acc) (new ++ todo)
 
 def close (v : Variant) (m : Sim) : Sim :=
   let init := m.states.foldl insertNew []
-  { m with states := closure v m.toCtx 100000 init init }
+  { m with states := closure v m.toCtx 100000 (init.foldl Seen.insert Seen.empty) init init }
 
 def tauTerminal (v : Variant) (c : Ctx) (s : St) : Bool := (tauSucc v c s).isEmpty
 
